@@ -252,7 +252,7 @@ def run(ck):
                                                 what='%s scale %g: ilength(%r), s on a joint (L=%r): %s' % (name, k, s, L, out), case={'shape': name, 'scale': k, 's': s},
                                                 expected='a parameter whose arc length is s', observed=str(out), driver='runs')
                     # outside [0, L]
-                    for s in (-1e-9 * L - 1e-300, L * (1 + 1e-9), -L, 2 * L):
+                    for s in (-1e-9 * L - 1e-300, L * (1 + 1e-9), -L, 2 * L, math.nextafter(L, 2 * L), -5e-13, -5e-324):
                         out, _ = run_recorded(curve, s, {})
                         ck.case(fp=(name, k, 'outside', s, scipy_on), nontrivial=True)
                         if out[0] != 'ValueError':
@@ -261,6 +261,66 @@ def run(ck):
                                         expected='ValueError', observed=str(out), driver='runs')
     finally:
         sppath._quad_available = old
+    # a coarse caller-supplied tolerance does not widen the domain: s just outside [0, L] still raises
+    for name, mk, uniform in shapes()[:6] + path_shapes()[:3]:
+        curve = mk(1.0)
+        L = curve.length()
+        for tol in (1e-3, 1e-6):
+            for s in (L + 0.4 * tol, -0.4 * tol):
+                out, _ = run_recorded(curve, s, {'s_tol': tol})
+                ck.case(fp=(name, 'outside-with-tol', tol, s), nontrivial=True)
+                if out[0] != 'ValueError':
+                    ck.disagree(key='inv_arclength/no-ValueError-outside', site='svgpathtools/path.py:inv_arclength',
+                                what='%s: ilength(%r, s_tol=%g) with L=%r gave %s' % (name, s, tol, L, out), case={'shape': name, 's': s, 'tol': tol},
+                                expected='ValueError', observed=str(out), driver='runs')
+    # histories: a curve that was measured, edited in place (control point / end point through the Path interface) and possibly reversed answers like a newly built one
+    def fresh_like(c_):
+        if isinstance(c_, sp.Path):
+            return sp.Path(*[fresh_like(x) for x in c_])
+        return type(c_)(*c_.bpoints())
+    hist = []
+    q = sp.QuadraticBezier(0j, 2 + 3j, 5 + 0j)
+    q.length(), q.ilength(1.0)
+    q.control = 3 - 4j
+    hist.append(('quadratic: length; control = z; reversed', q.reversed()))
+    hist.append(('quadratic: length; control = z', q))
+    cb = sp.CubicBezier(0j, 1 + 3j, 4 + 3j, 5 + 0j)
+    cb.length(), cb.ilength(2.0)
+    cb.control2 = 6 - 5j
+    hist.append(('cubic: length; control2 = z; reversed', cb.reversed()))
+    hist.append(('cubic: length; control2 = z', cb))
+    ph = sp.Path(sp.Line(0j, 3 + 0j), sp.CubicBezier(3 + 0j, 4 + 3j, 6 + 3j, 7 + 0j), sp.QuadraticBezier(7 + 0j, 8 + 2j, 10 + 0j), sp.Line(10 + 0j, 10 + 4j))
+    ph.length(), ph.ilength(5.0), ph.t2T(2, 0.5)
+    ph.end = 10 + 40j
+    hist.append(('path: ilength, t2T; path.end = z', ph))
+    ph2 = sp.Path(sp.Line(0j, 3 + 0j), sp.QuadraticBezier(3 + 0j, 4 + 2j, 6 + 0j), sp.Line(6 + 0j, 6 + 4j))
+    ph2.ilength(4.0), ph2.t2T(1, 0.5)
+    ph2.start = -30 + 0j
+    hist.append(('path: ilength, t2T; path.start = z', ph2))
+    for tag, obj in hist:
+        ref = fresh_like(obj)
+        Lr = ref.length()
+        for f in (0.0, 0.05, 0.3, 0.5, 0.77, 0.95, 0.999, 1.0):
+            s_ = Lr * f if f < 1 else Lr
+            ck.case(fp=('history', tag, f), nontrivial=True)
+            try:
+                got, want = obj.ilength(s_), ref.ilength(s_)
+            except Exception as e:      # noqa
+                got, want = e, None
+            if isinstance(got, Exception) or not (abs(got - want) <= 1e-9) or not (abs(ref.length(0, got) - s_) <= max(1e-12, 1e-11 * Lr)):
+                ck.disagree(key='inv_arclength/after-a-history', site='svgpathtools/path.py:inv_arclength / length caches',
+                            what='%s: ilength(%r) = %r, a newly built curve with the same control points answers %r (L = %r)' % (tag, s_, got, want, Lr),
+                            case={'history': tag, 'frac': f}, expected=repr(want), observed=repr(got), driver='history')
+                break
+        try:
+            obj.ilength(Lr * 1.01)
+            ck.disagree(key='inv_arclength/no-ValueError-outside', site='svgpathtools/path.py:inv_arclength', what='%s: ilength(1.01 L) did not raise' % tag,
+                        case={'history': tag}, expected='ValueError', observed='value', driver='history')
+        except ValueError:
+            pass
+        except Exception as e:      # noqa
+            ck.disagree(key='inv_arclength/no-ValueError-outside', site='svgpathtools/path.py:inv_arclength', what='%s: ilength(1.01 L) raised %r' % (tag, e),
+                        case={'history': tag}, expected='ValueError', observed=repr(e), driver='history')
     # also explicit looser tolerances (Hit branch) on a few curves
     for name, mk, uniform in shapes()[3:6]:
         curve = mk(1.0)
